@@ -129,6 +129,11 @@ def run_check(prop, tier):
     if not os.environ.get("VERIF_NO_EVIDENCE"):
         write_evidence(prop, wl, tier, seed, agg, wall, agg.n_unknown,
                        workers, replay_paths, len(jobs))
+    stuck = sorted(p for p in getattr(wl, "EXPECTED_PROBES", [])
+                   if not agg.counters.get("probe." + p))
+    if stuck and not os.environ.get("VERIF_STOP_ON_VIOLATION"):
+        print("WARNING: rare-condition probes never hit in this run: %s" %
+              ", ".join(stuck))
     print("%s: %d runs, %d checked operations, %d violation(s) "
           "(%d known), %.1fs" % (
               prop, agg.runs, agg.counters.get("ops", 0),
